@@ -137,12 +137,53 @@ func mfConcretise(k int, m *mfCase) *b1.Case {
 		fmt.Fprintf(&d, "type S%d struct {\n\tgv %s\n}\n\nfunc (s *S%d) %s() %s { return s.gv }\n", k, st, k, srcName, st)
 	}
 	fmt.Fprintf(&d, "\ntype D%d struct {\n\tFa %s\n}\n", k, dt)
+	notes := mfNotes(m.Cfg.Tg, m.Cfg.Rule)
+	// half of the :typecast methods get the toggle from their interface: a converter interface of their own that
+	// carries `:typecast` and sorts before interface Convergen, whose other methods must stay without it
+	group := ""
+	var groupNotes []string
+	if m.Cfg.Tg.Typecast && hashMod(id, 13, 2) == 0 {
+		group, groupNotes = "AaTypecast", []string{":typecast"}
+		var kept []string
+		for _, n := range notes {
+			if n != ":typecast" {
+				kept = append(kept, n)
+			}
+		}
+		notes = kept
+	}
 	return &b1.Case{
 		ID: id, JSON: js, Func: fmt.Sprintf("M%d", k), Style: "return",
-		Decls: d.String(), Notes: mfNotes(m.Cfg.Tg, m.Cfg.Rule),
+		Decls: d.String(), Notes: notes, Group: group, GroupNotes: groupNotes,
 		Method: fmt.Sprintf("M%d(*S%d) *D%d", k, k, k),
 		Data:   m,
 	}
+}
+
+// mfOptions are the run options of the one-field family: cases are mixed within the files, and a suspect that is
+// re-run in isolation keeps a neighbour in the other interface (interface-level :typecast, see mfConcretise).
+func mfOptions(name, family string, compile bool, cases []*b1.Case) b1.Options {
+	sort.SliceStable(cases, func(i, j int) bool { return cases[i].ID < cases[j].ID })
+	var ctxGrouped, ctxPlain *b1.Case
+	for _, cs := range cases {
+		// any case will do as a neighbour: the family has no rejected programs (no match is an outcome, not a failure)
+		if cs.Group != "" && ctxGrouped == nil {
+			ctxGrouped = cs
+		}
+		if cs.Group == "" && ctxPlain == nil {
+			ctxPlain = cs
+		}
+	}
+	iso := func(cs *b1.Case) []*b1.Case {
+		if cs.Group == "" && ctxGrouped != nil && ctxGrouped != cs {
+			return []*b1.Case{ctxGrouped}
+		}
+		if cs.Group != "" && ctxPlain != nil && ctxPlain != cs {
+			return []*b1.Case{ctxPlain}
+		}
+		return nil
+	}
+	return b1.Options{Name: name, PerFile: 80, Family: family, Compile: compile, IsoContext: iso}
 }
 
 // fieldOutcome projects what a generated function does to destination path
@@ -447,7 +488,7 @@ func C04(c *core.Ctx) {
 	for i, m := range ms {
 		cases = append(cases, mfConcretise(i, m))
 	}
-	st := b1.Run(c, b1.Options{Name: "mf", PerFile: 80, Family: "matchfield"}, cases, mfJudge)
+	st := b1.Run(c, mfOptions("mf", "matchfield", false, cases), cases, mfJudge)
 	c.Set("matchfield_cases", st.Cases)
 	c.Set("matchfield_files", st.Files)
 	// struct level: default matching inside nested / embedded / imported structs (programs without notations)
@@ -476,7 +517,7 @@ func c16Static(c *core.Ctx) {
 	for i, m := range ms {
 		cases = append(cases, mfConcretise(i, m))
 	}
-	st := b1.Run(c, b1.Options{Name: "mfslice", PerFile: 80, Family: "matchfield-slices"}, cases, mfJudgeC16)
+	st := b1.Run(c, mfOptions("mfslice", "matchfield-slices", false, cases), cases, mfJudgeC16)
 	c.Set("static_slice_cases", st.Cases)
 	// the other side: pairs of slice types for which the specification permits NO copy (element types neither
 	// assignable nor - under :typecast - convertible): no element-wise statement may appear, whatever other
@@ -487,7 +528,7 @@ func c16Static(c *core.Ctx) {
 	for i, m := range neg {
 		ncases = append(ncases, mfConcretise(i, m))
 	}
-	st2 := b1.Run(c, b1.Options{Name: "mfsliceneg", PerFile: 80, Family: "matchfield-slices"}, ncases, func(r *b1.Result) b1.Verdict {
+	st2 := b1.Run(c, mfOptions("mfsliceneg", "matchfield-slices", false, ncases), ncases, func(r *b1.Result) b1.Verdict {
 		m := r.Case.Data.(*mfCase)
 		v := b1.Verdict{Nontrivial: fmt.Sprintf("neg|%s|%s|%s|%v", m.Cfg.Dt, m.Cfg.St, m.Cfg.Ck, m.Cfg.Tg.Typecast)}
 		o, what, ok := mfObserve(r)
@@ -522,7 +563,7 @@ func c01MatchField(c *core.Ctx, keep int) {
 	for i, m := range ms {
 		cases = append(cases, mfConcretise(i, m))
 	}
-	st := b1.Run(c, b1.Options{Name: "mfc01", PerFile: 80, Family: "matchfield", Compile: true}, cases,
+	st := b1.Run(c, mfOptions("mfc01", "matchfield", true, cases), cases,
 		compileJudge(func(r *b1.Result) string { return mfDescribe(r.Case.Data.(*mfCase)) }))
 	c.AddCount("programs", int64(st.Functions))
 	if len(ms) > 0 {
